@@ -2,13 +2,13 @@
 # Builds the framework from files on disk only and pre-warms the Go build cache.
 set -e
 cd /verif
-export GOFLAGS=-mod=mod GOPROXY=off GOSUMDB=off GOTOOLCHAIN=local GOWORK=off
+export GOFLAGS=-mod=mod GOPROXY=off GOSUMDB=off GOTOOLCHAIN=local GOWORK=off GODEBUG=goindex=0
 mkdir -p bin evidence replays
 (cd instr && go build -o ../bin/instr .)
 go build -o bin/vcheck ./cmd/vcheck
 # one instrumented build of the worker warms the cache for every check
 S=$(mktemp -d /dev/shm/verif-setup-XXXXXX 2>/dev/null || mktemp -d)
 trap 'rm -rf "$S"' EXIT
-bin/instr -out "$S" github.com/olive-io/bpmn/v2 github.com/olive-io/bpmn/v2/pkg/... github.com/olive-io/bpmn/v2/model verif/harness/...
+bin/instr -out "$S" github.com/olive-io/bpmn/v2 github.com/olive-io/bpmn/v2/pkg/... github.com/olive-io/bpmn/v2/model github.com/muyo/sno github.com/muyo/sno/internal verif/harness/...
 go build -overlay "$S/overlay.json" -o "$S/worker" ./harness/cmd/worker
 echo setup ok
